@@ -62,7 +62,7 @@ CHECKS = {
           "lowest_epoch <= low_water_mark(), the reclaimed count is incremented exactly once per invocation and is what advances the cursor, "
           "stop() pushes the default (UINT64_MAX) marker before join under joinable(), the destructor stops, retire stamps a fresh tick, "
           "and the queue flag pairing / single-consumer precondition of the non-concurrent pop. The tests only stop an already idle "
-          "collector, so the batch-shared-with-marker path is never staged. Which regions are open (Epoch) is C09; schedule-level exactly-once is not decided. Also: every popped task that is not the stop marker is appended to the batch (R3g).",
+          "collector, so the batch-shared-with-marker path is never staged. Which regions are open (Epoch) is C09; schedule-level exactly-once is not decided. Also: every popped task that is not the stop marker is appended to the batch (R3g). The queue re-size clause C01.R11 is evaluated on this component's queue instantiation (Q1).",
   "note": "Trusted: clang 14 CFG; std::thread/std::vector are opaque; the bounded queue (C01/C02) delivers what was pushed.",
   "technique": "static analysis: must-pass-through (typestate of the task buffer), edge-guard and counting rules over CFG facts; who-may-call pairing"},
  "C09": {
@@ -72,7 +72,7 @@ CHECKS = {
           "by all ids ever allocated (IdAllocator::end / ThreadId::end) and keeps the minimum starting from UINT64_MAX; leaving "
           "release-stores UINT64_MAX only on the outermost exit with a balanced nesting counter; Accessor is move-only, swaps both "
           "fields and unregisters at most once. A weakened fence or order never shows in sequentially consistent test interleavings on "
-          "x86. The sufficiency of these orders (the Dekker argument) and the non-x86 branch of tick() are not decided. Also: the scan bound is the instance's own accessor count whenever non-zero; the process-wide thread count is used only on the ==0 edge (R3e).",
+          "x86. The sufficiency of these orders (the Dekker argument) and the non-x86 branch of tick() are not decided. Also: the scan bound is the instance's own accessor count whenever non-zero; the process-wide thread count is used only on the ==0 edge (R3e). Also: lock/unlock work on the caller's own slot, which lock ensures first; create_accessor ensures the slot it hands out (R6).",
   "note": "Trusted: C++ memory model reasoning about seq_cst fences; host preprocessor branch (#if __x86_64__) only.",
   "technique": "static analysis: memory-order, fence post-dominance, edge-guard and provenance rules over CFG facts"},
  "C14": {
@@ -106,7 +106,7 @@ CHECKS = {
           "a growth table is CAS-published or deleted, exactly one, with release/acquire; traversal loads of next acquire; and lookup and "
           "insertion advance their probe position identically (alpha-renamed sibling agreement - this is what catches an independently "
           "seeded change that made find walk the groups in a different order). Readers between BUSY and the publishing store, or two "
-          "inserters at one empty slot, are never staged by the tests. Linearizability and SIMD matching are not decided. Also: the slot claim is made on the control byte indexed exactly like the element constructed, never on its mirror (R1f).",
+          "inserters at one empty slot, are never staged by the tests. Linearizability and SIMD matching are not decided. Also: the slot claim is made on the control byte indexed exactly like the element constructed, never on its mirror (R1f). Also: the success flag of the chain-level emplace is the .second of the table-level emplace that produced the returned position (R5e).",
   "note": "Trusted: clang 14 CFG; Group::match*/SIMD helpers opaque; std::hash.",
   "technique": "static analysis: edge-guard, fence-between, exactly-once, resource-flow and sibling-agreement rules over CFG facts of template instantiations"},
  "C18": {
@@ -128,7 +128,7 @@ CHECKS = {
           "the chain; user-provided move members transfer every member and data-carrying base (violated by the original tree: finding F3, "
           "replayed and fixed); constant indices agree with the capacity of the in-page arrays. A block returned with the wrong size, twice "
           "or never is visible only with an instrumented allocator over long histories. Block disjointness / alignment arithmetic / overlap "
-          "with in-page bookkeeping are numeric and explicitly not decided. Also: when a move member exchanges the block bookkeeping, the allocators release() hands blocks back to are exchanged with it (R4b).",
+          "with in-page bookkeeping are numeric and explicitly not decided. Also: when a move member exchanges the block bookkeeping, the allocators release() hands blocks back to are exchanged with it (R4b). Also: release() does not read a bookkeeping array again after a block of its own group went back while the chain head still names it (R2h).",
   "note": "Trusted: clang 14 CFG; PageAllocator and std::pmr upstream are opaque; SanitizerHelper calls are value-transparent helpers.",
   "technique": "static analysis: resource-flow (acquire -> register on all paths), expression agreement with reaching definitions, ordering/dominance, "
                "special-member completeness and constant/capacity agreement over CFG facts"},
@@ -141,7 +141,7 @@ CHECKS = {
           "binds the deleter to the pool and empties the slot, the deleter pushes only to a non-null pool; per-mode queue flag pairing; "
           "Deleter moves transfer the pool pointer. The compensating paths run only when the cache is exactly full/empty under "
           "contention, and a duplicated page is silent corruption. Exact conservation inside the pointer-arithmetic callbacks under "
-          "interleavings is not decided.",
+          "interleavings is not decided. The queue re-size clause C01.R11 is evaluated on this component's queue instantiations (Q1).",
   "note": "Trusted: clang 14 CFG; the bounded queue's compensating batch operations (C01) deliver each slot to exactly one callback.",
   "technique": "static analysis: role/sibling agreement of callbacks (resolved callees in lambda bodies), fall-off-end CFG rule, exactly-once counting, who-may-call pairing"},
  "C07": {
@@ -152,7 +152,7 @@ CHECKS = {
           "exactly when invoke refused, submit(CoroutineTask) binds the executor first and destroys the frame exactly on refusal; the "
           "sleeping global pop is woken by every global push and the non-atomic local push is reachable only behind is_running_in() "
           "through the thread-local queue. A dropped task shows only as a future that never becomes ready. That an accepted task runs "
-          "under every interleaving with steal/balance is not decided. Also: a task stolen inside the per-block steal sweep is dispatched before any further pop into the same variable, across callback invocations and after the sweep (R3e/R3f). Also: enqueue_task reports success only behind a blocking push or the success edge of a try_push (R3g).",
+          "under every interleaving with steal/balance is not decided. Also: a task stolen inside the per-block steal sweep is dispatched before any further pop into the same variable, across callback invocations and after the sweep (R3e/R3f). Also: enqueue_task reports success only behind a blocking push or the success edge of a try_push (R3g). The queue re-size clause C01.R11 is evaluated on this component's queue instantiation (Q1).",
   "note": "Trusted: clang 14 CFG; std::thread; the bounded queue (C01/C02). Observation O4 (coroutine execute ignores a refused submit) is outside the quantifier and not armed.",
   "technique": "static analysis: scope-dominance, ordering, switch exhaustiveness over the enum's enumerators, edge-guard and who-may-call pairing rules over CFG facts"},
  "C16": {
@@ -162,7 +162,7 @@ CHECKS = {
           "signalling and launch a consumer exactly on fetch_add result == 0; a refused launch is rolled back by CAS to 0, -1 only after "
           "that CAS succeeded, a failed roll-back retries the launch; the non-concurrent pop has one call site. The stranded-item window "
           "(publish after the last empty poll, before the counter reset) and launch failures are interleaving- and fault-dependent. "
-          "Per-producer order and exclusivity of the consume function at run time are not decided.",
+          "Per-producer order and exclusivity of the consume function at run time are not decided. Also: join() returns only on a zero counter, the consumer feeds the installed function, initialize installs executor and function on every path (R2d-f); the queue's re-size clause C01.R11 on this instantiation (Q1).",
   "note": "Trusted: clang 14 CFG; Executor::submit semantics (0 = accepted).",
   "technique": "static analysis: reaching-definitions + must-pass-through, edge-guard and memory-order rules over CFG facts"},
  "C15": {
@@ -184,7 +184,7 @@ CHECKS = {
           "for_each_alive (live-id enumeration); the comparer's reset only bumps the version, a stale-version write overwrites value and "
           "version, readers skip stale slots; the adder does a plain read-add-write on its own slot and reset zeroes all; move members "
           "transfer every field. Slot recycling across generations of threads / instances needs long create-destroy histories the tests do "
-          "not produce. Exactness of sums under concurrent readers is not decided. Also: reset() of the aggregates walks every slot ever used, like value() (R3a).",
+          "not produce. Exactness of sums under concurrent readers is not decided. Also: reset() of the aggregates walks every slot ever used, like value() (R3a). Also: the summer's sample is (value,1) through the pair overload and the pair update is one 128-bit own-slot = own-slot + argument (R5c/R5d).",
   "note": "Trusted: clang 14 CFG; ConcurrentVector (C04) and IdAllocator (C14).",
   "technique": "static analysis: ordering/dominance, resolved-callee (who sums over what), edge-guard and special-member completeness rules over CFG facts"},
  "C20": {
@@ -196,7 +196,7 @@ CHECKS = {
           "the writer thread can exit after a pop only through the write-out of that pop's entries, the size-0 marker is what the consumer "
           "tests, close pushes it before join, the destructor closes. Page conservation across the asynchronous hand-off is a property of "
           "all interleavings and of entry lengths no test enumerates. The inline/page-table boundary arithmetic, per-thread order in the "
-          "file and partial writev are not decided; observation O1 (close()'s sleeping push vs. the non-waking consumer) is printed as a NOTE. Also: begin() resets every field the streaming methods write, end() syncs, and a file's destination index is the position its destination is appended at (R2i/R2j/R4d).",
+          "file and partial writev are not decided; observation O1 (close()'s sleeping push vs. the non-waking consumer) is printed as a NOTE. Also: begin() resets every field the streaming methods write, end() syncs, and a file's destination index is the position its destination is appended at (R2i/R2j/R4d). The queue re-size clause C01.R11 is evaluated on this component's queue instantiation (Q1).",
   "note": "Trusted: clang 14 CFG; writev/FileObject opaque; PageAllocator opaque; the appender queue (C01/C02).",
   "technique": "static analysis: resource-flow, must-pass-through, exactly-once linking and ordering rules over CFG facts"},
  "C11": {
@@ -245,7 +245,7 @@ CHECKS = {
           "exactly one on every path; vertex closures add one pending vertex and subtract exactly once; release notifies successors only "
           "behind the releasing seal CAS, ready() acquires, bind counts before and rolls back exactly on a lost CAS; every field a run "
           "writes is reset. The orderings of activate/condition-ready/target-ready are produced by the scheduler, never by the tests. The "
-          "value-level correctness of the +1/+2 protocol over all orderings and equality with a reference evaluation are not decided.",
+          "value-level correctness of the +1/+2 protocol over all orderings and equality with a reference evaluation are not decided. Also: reset() restores every run-written field on every path (R6c).",
   "note": "Trusted: clang 14 CFG; GraphExecutor::run and processors are virtual/opaque; builder-time configuration is outside the rules.",
   "technique": "static analysis: flow-sensitive edge-guard (equality on RMW results), exactly-once counting, who-may-call and reset-completeness rules over CFG facts"},
 }
